@@ -32,8 +32,10 @@ KEYWORDS = {"if", "else", "for", "while", "do", "switch", "case", "default", "br
 CALLEE_EFFECTS = {
     "kabsch_sander": {7: "RW", 8: "RW"},          # store_energies keeps the best two: reads what is there
     # asa_frame(frame, n_atoms, radii, sphere_points, n_sphere_points, neighbor_indices, centered_sphere_points, mask, areas):
-    # the two work buffers are filled before they are read (proved for the buffer-level model MD.Sasa.LowLevel:
-    # asa_frame_ll_ignores_work_buffers); areas is accumulated into (areas[i]++, areas[i] *= c): read-modify-write
+    # the two work buffers are filled (neighbor_indices[0..n), centered_sphere_points[0..n_sphere_points)) before exactly
+    # that range is read: hand-read from asa_frame like the rest of this table, and PROVED for the buffer-level Gallina
+    # model of asa_frame (MD.Sasa.LowLevelProofs.asa_frame_ll_ignores_work_buffers = Props/C08.v
+    # sasa_work_buffers_carry_nothing); areas is accumulated into (areas[i]++, areas[i] *= c): read-modify-write
     "asa_frame": {5: "W", 6: "W", 8: "RW"},
     "calculate_beta_sheets": {4: "RW"},
     "calculate_alpha_helices": {7: "RW"},
